@@ -40,7 +40,7 @@ def stateStr (n : Node) : String :=
     match n.slots[i]? with
     | none => ""
     | some a => if a.free then s!"s{i}:free"
-      else s!"s{i}:{boolStr a.tp}:{a.pgn}:{a.src}:{a.dst}:{a.lastFrame}:{a.data.length}:{a.dataLen}:{a.reqCTS}:{a.maxPackets}"
+      else s!"s{i}:{boolStr a.tp}:{a.pgn}:{a.src}:{a.dst}:{a.lastFrame}:{a.data.length}:{a.dataLen}:{a.reqCTS}:{a.maxPackets}:{sub32 (millis32 n.s.now) a.msgTime}"
   " ".intercalate (ds ++ ss)
 
 def mkNode (f : Flavor) (q nslots mode now : Nat) (onlyKnown : Bool) (ds : List Dev) : Node :=
